@@ -6,6 +6,12 @@ import (
 	"sort"
 )
 
+func init() {
+	register("10-html-entities", (*gen).htmlEntities)
+	register("11-html-directives", (*gen).htmlDirectives)
+	register("12-autoescape-attr", (*gen).autoescapeAttr)
+}
+
 // htmlEntities translates the switch in soyhtml.htmlEscapeString together with
 // the byte-slice variables it refers to.
 func (g *gen) htmlEntities() {
